@@ -16,7 +16,7 @@ algorithms.
 import inspect
 
 from ufl.algorithms.map_integrands import map_integrands
-from ufl.classes import Variable, all_ufl_classes
+from ufl.classes import Variable
 from ufl.core.ufl_type import UFLType
 
 
@@ -45,7 +45,11 @@ class Transformer:
 
         # Analyse class properties and cache handler data the
         # first time this is run for a particular class
+        all_ufl_classes = UFLType._ufl_all_classes_
         cache_data = Transformer._handlers_cache.get(type(self))
+        if cache_data and len(cache_data) != len(all_ufl_classes):
+            # New types have been registered since the handlers were cached
+            cache_data = None
         if not cache_data:
             cache_data = [None] * len(all_ufl_classes)
             # For all UFL classes
